@@ -318,6 +318,10 @@ impl<'a> Renderer<'a> {
                 Arg::Lit(l) => s.push_str(&format!("\"{}\"", l)),
                 Arg::Int(n) => s.push_str(&n.to_string()),
                 Arg::Var(v) => s.push_str(&self.name(*v)),
+                Arg::Call(f, inner) => {
+                    let c = self.call(*f, inner);
+                    s.push_str(&c)
+                }
             }
         }
         s
